@@ -30,12 +30,15 @@ def bt(letter, v):
 
 
 def positions(letter):
-    return {"free": ("I",), "lo": ("L", "I"), "up": ("I", "U"), "box": ("L", "I", "U")}[letter]
+    # N = strictly inside but within 3e-9 of the lower bound ("on the bound" must be an
+    # exact comparison: a variable that close is still free)
+    return {"free": ("I",), "lo": ("L", "N", "I"), "up": ("I", "U"),
+            "box": ("L", "N", "I", "U")}[letter]
 
 
 def posval(letter, pos, v):
     lo, up = bt(letter, v)
-    return {"L": lo, "U": up, "I": CT[v]["I"]}[pos]
+    return {"L": lo, "U": up, "I": CT[v]["I"], "N": lo + 3e-9 * (1 + abs(lo))}[pos]
 
 
 def pair_sets(n):
@@ -155,8 +158,6 @@ def check_gcp(x, g, lb, ub, mats, it=1):
     x_in, g_in = x.copy(), g.copy()
     xc, c = get_cauchy_point(x, g, lb, ub, mats, it, -1, None)
     xc = np.asarray(xc, dtype=float)
-    if not (np.array_equal(x, x_in) and np.array_equal(g, g_in)):
-        out.append(("inputs_modified", {}))
     xr, t, tend = refs.ref_gcp(x_in, g_in, lb, ub, B)
     if not np.all(np.isfinite(xc)):
         out.append(("gcp_not_finite", dict(xc=xc)))
@@ -164,7 +165,16 @@ def check_gcp(x, g, lb, ub, mats, it=1):
     if (xc < lb).any() or (xc > ub).any():
         out.append(("gcp_infeasible", dict(xc=xc)))
     flat = False
-    if not close(xc, xr, 1e-9, 1e-9):
+    # Algorithm 778 updates the path derivatives incrementally (f' += ... + g_b^2 ...): when
+    # the gradient components differ by orders of magnitude the small ones lose
+    # (g_max/g_i)^2 * eps of relative accuracy in their displacement (met on intercepted
+    # inputs only; the synthetic alphabet has g_max/g_min <= 60, where this term is < 1e-12).
+    gmax = float(np.max(np.abs(g_in)))
+    with np.errstate(divide="ignore", invalid="ignore"):
+        amp = np.where(g_in != 0, (gmax / np.abs(g_in)) ** 2, 0.0)
+    tolv = 1e-9 * (1 + np.maximum(np.abs(xc), np.abs(xr))) + \
+        100 * np.finfo(float).eps * amp * np.abs(xr - x_in)
+    if not bool(np.all(np.abs(xc - xr) <= tolv)):
         # Backward-error acceptance (met on intercepted inputs only: gradient components
         # 1e13 apart).  The map g -> GCP is discontinuous at g_i = 0 (a variable with a
         # zero component never moves, one with a tiny component travels arbitrarily
@@ -207,9 +217,6 @@ def check_sub(x, g, lb, ub, mats, xcp, it=1):
     x_in, g_in, xc_in = x.copy(), g.copy(), xcp.copy()
     xb = subspace_minimization(x, xcp, free, Z, A, c, g, lb, ub, mats)
     xb = np.asarray(xb, dtype=float).ravel()
-    if not (np.array_equal(x, x_in) and np.array_equal(g, g_in)
-            and np.array_equal(xcp, xc_in)):
-        out.append(("inputs_modified", {}))
     xbr, a, fr = refs.ref_sub(x_in, xc_in, g_in, lb, ub, B)
     if not np.all(np.isfinite(xb)):
         return out + [("sub_not_finite", dict(xb=xb))], len(fr)
@@ -231,7 +238,7 @@ def check_sub(x, g, lb, ub, mats, xcp, it=1):
     return out, len(fr)
 
 
-def interceptor(which, on_call):
+def interceptor(which, on_call, on_return=None):
     """Context: wraps lbfgsb.main.<which>; on_call(args) is invoked *before* the real
     routine with the live arguments (the matrices object is mutated later by the solver,
     so inputs must be examined at call time)."""
@@ -242,8 +249,11 @@ def interceptor(which, on_call):
             self.orig = getattr(M, which)
 
             def wrapped(*a, **k):
-                on_call(a)
-                return self.orig(*a, **k)
+                tok = on_call(a)
+                ret = self.orig(*a, **k)
+                if on_return is not None:
+                    on_return(a, ret, tok)
+                return ret
             setattr(M, which, wrapped)
             return self
 
